@@ -26,6 +26,7 @@ def fam_numeric_partial(cls, arity, label, bounded):
             slf = H.make_self(I, cls, arity)
             H.set_memo_coherent(I, slf, pt)
             I.ghost["self"], I.ghost["pt"], I.ghost["x"] = slf, pt, x
+            I.ghost["replay"] = {"kind": "numeric_routes", "root": slf, "pt": pt, "x": x}
             return lambda: I.call_funcdef(fd, [slf, SName(x), pt], {})
 
         def post(I, res, emit):
@@ -78,6 +79,7 @@ def fam_compute_numeric_partials(cls, arity, label, bounded):
             m = SNum(z3.Real("m"), z3.Bool("m_is_int"))
             I.ghost.update({"self": slf, "pt": pt, "k": k, "acc": acc, "m": m,
                             "view0": acc_view(I, acc.fields["_numeric_partials"], k)})
+            I.ghost["replay"] = {"kind": "numeric_routes", "root": slf, "pt": pt, "x": k}
             return lambda: I.call_funcdef(fd, [slf, acc, m, pt], {})
 
         def post(I, res, emit):
@@ -149,6 +151,7 @@ def fam_partial_at_late(as_object):
             x = ambient_name(I)
             e = expr_child(I)
             I.ghost.update({"e": e, "pt": pt, "x": x})
+            I.ghost["replay"] = {"kind": "numeric_routes", "root": e, "pt": pt, "x": x}
 
             def thunk():
                 var = variable_arg(I, x, as_object)
@@ -260,6 +263,7 @@ def fam_located_differential(as_object):
             x = ambient_name(I)
             e = expr_child(I)
             I.ghost.update({"e": e, "pt": pt, "x": x})
+            I.ghost["replay"] = {"kind": "numeric_routes", "root": e, "pt": pt, "x": x}
 
             def thunk():
                 ldf = I.instantiate(prog.classes["LocatedDifferential"], [e, pt], {})
@@ -286,6 +290,7 @@ def fam_differential_late(route):
             x = ambient_name(I)
             e = expr_child(I)
             I.ghost.update({"e": e, "pt": pt, "x": x})
+            I.ghost["replay"] = {"kind": "numeric_routes", "root": e, "pt": pt, "x": x}
 
             def thunk():
                 df = I.instantiate(prog.classes["Differential"], [e], {})
